@@ -278,11 +278,18 @@ def _tuplet_part():
         for a, z in (("t0", "t2"), ("u0", "u2")):
             p.add(sc.Tuplet(byid[a], byid[z], actual_notes=3, normal_notes=2, actual_type="eighth", normal_type="eighth"), byid[a].start.t, byid[z].end.t)
     notes = [("t0", 0, 2, "C", None, 4, 1, 1), ("t1", 2, 2, "D", None, 4, 1, 1), ("t2", 4, 2, "E", None, 4, 1, 1), ("t2c", 4, 2, "G", None, 4, 1, 1),
-             ("u0", 6, 2, "F", None, 4, 1, 1), ("u0c", 6, 2, "A", None, 4, 1, 1), ("u1", 8, 2, "G", None, 4, 1, 1), ("u2", 10, 2, "A", None, 4, 1, 1), ("h", 12, 12, "C", None, 5, 1, 1)]
-    part = G.build_part("P1", 6, notes=notes, clefs=[(0, 1, "G", 2)], key=(2, "major"), measures=[(0, 24)], extra=extra)
+             ("u0", 6, 2, "F", None, 4, 1, 1), ("u0c", 6, 2, "A", None, 4, 1, 1), ("u1", 8, 2, "G", None, 4, 1, 1), ("u2", 10, 2, "A", None, 4, 1, 1),
+             # a siciliana figure inside a triplet bracket: dotted eighth, sixteenth, eighth
+             ("s0", 12, 3, "B", None, 4, 1, 1), ("s1", 15, 1, "A", None, 4, 1, 1), ("s2", 16, 2, "G", None, 4, 1, 1), ("q", 18, 6, "C", None, 5, 1, 1)]
+    part = G.build_part("P1", 6, notes=notes, clefs=[(0, 1, "G", 2)], key=(2, "major"), measures=[(0, 24)],
+                        extra=lambda p, byid: (extra(p, byid), p.add(sc.Tuplet(byid["s0"], byid["s2"], actual_notes=3, normal_notes=2, actual_type="eighth", normal_type="eighth"), 12, 18)))
     for n in part.iter_all(sc.Note):
         if n.id[0] in "tu":
             n.symbolic_duration = dict(type="eighth", actual_notes=3, normal_notes=2)
+    byid = {n.id: n for n in part.iter_all(sc.Note)}
+    byid["s0"].symbolic_duration = dict(type="eighth", dots=1, actual_notes=3, normal_notes=2)
+    byid["s1"].symbolic_duration = dict(type="16th", actual_notes=3, normal_notes=2)
+    byid["s2"].symbolic_duration = dict(type="eighth", actual_notes=3, normal_notes=2)
     return part
 
 
